@@ -31,15 +31,30 @@ func tmp(name string) string {
 	return filepath.Join(dir, fmt.Sprintf("%d_%s", seq, name))
 }
 
+// boxDef is a box definition: an explicit rectangle or absolute margins (left, right, top, bottom)
+// relative to the parent box.
+type boxDef struct {
+	rect *pgdoc.Rect
+	marg *[4]int
+}
+
+func (b *boxDef) apply(parent pgdoc.Rect) *pgdoc.Rect {
+	if b.rect != nil {
+		q := *b.rect
+		return &q
+	}
+	return &pgdoc.Rect{parent[0] + b.marg[0], parent[1] + b.marg[3], parent[2] - b.marg[1], parent[3] - b.marg[2]}
+}
+
 type opT struct {
 	kind   byte // I R T C O A X K
 	sel    []int
 	before bool
 	dim    *[2]int
 	delta  int
-	boxes  [5]*pgdoc.Rect // media crop trim bleed art
-	rm     [4]bool        // crop trim bleed art
-	rect   pgdoc.Rect
+	boxes  [5]*boxDef // media crop trim bleed art
+	rm     [4]bool    // crop trim bleed art
+	crop   boxDef
 }
 
 func hx(i int) string { return vh.Int(int64(i)) }
@@ -49,6 +64,16 @@ func rs(q *pgdoc.Rect) string {
 		return "-"
 	}
 	return hx(q[0]) + "," + hx(q[1]) + "," + hx(q[2]) + "," + hx(q[3])
+}
+
+func bs(b *boxDef) string {
+	if b == nil {
+		return "-"
+	}
+	if b.rect != nil {
+		return rs(b.rect)
+	}
+	return "m:" + hx(b.marg[0]) + "," + hx(b.marg[1]) + "," + hx(b.marg[2]) + "," + hx(b.marg[3])
 }
 
 func b01(b bool) string {
@@ -72,11 +97,11 @@ func (o opT) encode() string {
 	case 'O':
 		return "O " + s + " " + hx(o.delta)
 	case 'A':
-		return "A " + s + " " + rs(o.boxes[0]) + " " + rs(o.boxes[1]) + " " + rs(o.boxes[2]) + " " + rs(o.boxes[3]) + " " + rs(o.boxes[4])
+		return "A " + s + " " + bs(o.boxes[0]) + " " + bs(o.boxes[1]) + " " + bs(o.boxes[2]) + " " + bs(o.boxes[3]) + " " + bs(o.boxes[4])
 	case 'X':
 		return "X " + s + " " + b01(o.rm[0]) + " " + b01(o.rm[1]) + " " + b01(o.rm[2]) + " " + b01(o.rm[3])
 	case 'K':
-		return "K " + s + " " + rs(&o.rect)
+		return "K " + s + " " + bs(&o.crop)
 	}
 	panic("op")
 }
@@ -89,11 +114,14 @@ func selStrings(sel []int) []string {
 	return o
 }
 
-func box(q *pgdoc.Rect) *model.Box {
-	if q == nil {
+func box(b *boxDef) *model.Box {
+	if b == nil {
 		return nil
 	}
-	return &model.Box{Rect: types.NewRectangle(float64(q[0]), float64(q[1]), float64(q[2]), float64(q[3]))}
+	if q := b.rect; q != nil {
+		return &model.Box{Rect: types.NewRectangle(float64(q[0]), float64(q[1]), float64(q[2]), float64(q[3]))}
+	}
+	return &model.Box{MLeft: float64(b.marg[0]), MRight: float64(b.marg[1]), MTop: float64(b.marg[2]), MBot: float64(b.marg[3])}
 }
 
 func (o opT) apply(in, out string) error {
@@ -132,7 +160,7 @@ func (o opT) apply(in, out string) error {
 		}
 		return api.RemoveBoxesFile(in, out, sel, pb, nil)
 	case 'K':
-		return api.CropFile(in, out, sel, box(&o.rect), nil)
+		return api.CropFile(in, out, sel, box(&o.crop), nil)
 	}
 	panic("op")
 }
@@ -149,6 +177,14 @@ func has(sel []int, k int) bool {
 func randRect(n int) *pgdoc.Rect {
 	a, b := r.Rand.Intn(30), r.Rand.Intn(30)
 	return &pgdoc.Rect{a, b, a + 100 + r.Rand.Intn(150), b + 100 + r.Rand.Intn(200)}
+}
+
+// randDef: a rectangle or margins; margins are >= 0 and small enough to keep boxes non-empty
+func randDef(margProb int) *boxDef {
+	if r.Rand.Intn(100) < margProb {
+		return &boxDef{marg: &[4]int{r.Rand.Intn(41), r.Rand.Intn(41), r.Rand.Intn(41), r.Rand.Intn(41)}}
+	}
+	return &boxDef{rect: randRect(0)}
 }
 
 func randSel(n int, nonFull bool) []int {
@@ -170,9 +206,15 @@ func randSel(n int, nonFull bool) []int {
 	return s
 }
 
-func randOp(n int) opT {
+// randOp draws an operation; boxOnly restricts to the box / rotation operations
+// (crop, rotate, add trim, add bleed/art, remove boxes, crop again ...).
+func randOp(n int, boxOnly bool) opT {
 	for {
-		switch r.Rand.Intn(10) {
+		k := r.Rand.Intn(10)
+		if boxOnly {
+			k = []int{5, 7, 7, 7, 8, 9, 9, 10, 11, 11}[r.Rand.Intn(10)]
+		}
+		switch k {
 		case 0, 1:
 			o := opT{kind: 'I', sel: randSel(n, false), before: r.Rand.Intn(2) == 0}
 			if r.Rand.Intn(3) == 0 {
@@ -201,11 +243,24 @@ func randOp(n int) opT {
 			o := opT{kind: 'A', sel: randSel(n, false)}
 			for i := range o.boxes {
 				if r.Rand.Intn(3) == 0 {
-					o.boxes[i] = randRect(n)
+					o.boxes[i] = randDef(50)
 				}
 			}
-			if o.boxes == [5]*pgdoc.Rect{} {
-				o.boxes[1+r.Rand.Intn(4)] = randRect(n)
+			if o.boxes == [5]*boxDef{} {
+				o.boxes[1+r.Rand.Intn(4)] = randDef(50)
+			}
+			return o
+		case 10: // only a trim box, by margins: its parent is whatever crop box the page has by now
+			o := opT{kind: 'A', sel: randSel(n, false)}
+			o.boxes[2] = randDef(90)
+			return o
+		case 11: // bleed and/or art by margins
+			o := opT{kind: 'A', sel: randSel(n, false)}
+			if r.Rand.Intn(2) == 0 {
+				o.boxes[3] = randDef(90)
+			}
+			if o.boxes[3] == nil || r.Rand.Intn(2) == 0 {
+				o.boxes[4] = randDef(90)
 			}
 			return o
 		case 8:
@@ -218,7 +273,7 @@ func randOp(n int) opT {
 			}
 			return o
 		default:
-			return opT{kind: 'K', sel: randSel(n, false), rect: *randRect(n)}
+			return opT{kind: 'K', sel: randSel(n, false), crop: *randDef(40)}
 		}
 	}
 }
@@ -263,20 +318,27 @@ func expected(o opT, before []pgdoc.VPage) []pgdoc.VPage {
 				case 'O':
 					v.Rot = pgdoc.NormRot(v.Rot + o.delta)
 				case 'A':
+					// media and crop definitions refer to the media box in effect; trim, bleed and art to
+					// the page's crop box (set now, earlier, or inherited) if any, else to the media box
+					m := *v.Media
 					if o.boxes[0] != nil {
-						v.Media = o.boxes[0]
+						v.Media = o.boxes[0].apply(m)
 					}
 					if o.boxes[1] != nil {
-						v.Crop = o.boxes[1]
+						v.Crop = o.boxes[1].apply(m)
+					}
+					parent := m
+					if v.Crop != nil {
+						parent = *v.Crop
 					}
 					if o.boxes[2] != nil {
-						v.Trim = o.boxes[2]
+						v.Trim = o.boxes[2].apply(parent)
 					}
 					if o.boxes[3] != nil {
-						v.Bleed = o.boxes[3]
+						v.Bleed = o.boxes[3].apply(parent)
 					}
 					if o.boxes[4] != nil {
-						v.Art = o.boxes[4]
+						v.Art = o.boxes[4].apply(parent)
 					}
 				case 'X':
 					if o.rm[0] {
@@ -292,8 +354,7 @@ func expected(o opT, before []pgdoc.VPage) []pgdoc.VPage {
 						v.Art = nil
 					}
 				case 'K':
-					q := o.rect
-					v.Crop = &q
+					v.Crop = o.crop.apply(*v.Media)
 				}
 			}
 			out = append(out, v)
@@ -332,7 +393,60 @@ func diffClass(got, want []pgdoc.VPage) string {
 	return res
 }
 
-func sequence(n, kind, steps int) {
+// boxesOracle: api.Boxes (XRefTable.PageBoundaries), the public observer of page boxes, must report for
+// every page the boxes in effect (own entries, else inherited from the ANCESTORS).
+func boxesOracle(path string, pages []pgdoc.VPage, input any) {
+	f, err := os.Open(path)
+	if err != nil {
+		return
+	}
+	defer f.Close()
+	var pbs []model.PageBoundaries
+	panicked := false
+	func() {
+		defer func() {
+			if p := recover(); p != nil {
+				panicked = true
+				r.OracleFail("panic:boxes-list", input, fmt.Sprint(p))
+			}
+		}()
+		pbs, err = api.Boxes(f, nil, nil)
+	}()
+	if panicked {
+		return
+	}
+	if err != nil || len(pbs) != len(pages) {
+		r.OracleFail("boxes-list-fails", input, fmt.Sprintf("%v, %d entries for %d pages", err, len(pbs), len(pages)))
+		return
+	}
+	rr := func(q *types.Rectangle) string {
+		if q == nil {
+			return "-"
+		}
+		return fmt.Sprintf("%.0f,%.0f,%.0f,%.0f", q.LL.X, q.LL.Y, q.UR.X, q.UR.Y)
+	}
+	pr := func(q *pgdoc.Rect) string {
+		if q == nil {
+			return "-"
+		}
+		return fmt.Sprintf("%d,%d,%d,%d", q[0], q[1], q[2], q[3])
+	}
+	for i, pb := range pbs {
+		v := pages[i]
+		crop := v.Crop
+		if crop == nil {
+			crop = v.Media
+		}
+		if rr(pb.MediaBox()) != pr(v.Media) || rr(pb.CropBox()) != pr(crop) {
+			r.OracleFail("boxes-list-sibling-leak", input, fmt.Sprintf("page %d: api.Boxes reports MediaBox %s CropBox %s, the page tree says MediaBox %s CropBox %s",
+				i+1, rr(pb.MediaBox()), rr(pb.CropBox()), pr(v.Media), pr(crop)))
+			return
+		}
+	}
+	r.OracleOK()
+}
+
+func sequence(n, kind, steps int, boxOnly bool) {
 	var opt pgdoc.GenOpt
 	switch kind % 5 {
 	case 0:
@@ -358,9 +472,15 @@ func sequence(n, kind, steps int) {
 		return
 	}
 	r.Case("run", []string{enc}, "ok:"+pgdoc.Canon(pages, false))
+	boxesOracle(cur, pages, map[string]any{"tree": enc, "ops": "", "step": 0, "op": "api.Boxes"})
+	if boxOnly {
+		r.Count("history:box-sequence")
+	} else {
+		r.Count("history:mixed")
+	}
 	var ops []string
 	for s := 1; s <= steps; s++ {
-		o := randOp(len(pages))
+		o := randOp(len(pages), boxOnly)
 		ops = append(ops, o.encode())
 		prefix := strings.Join(ops, "|")
 		input := map[string]any{"tree": enc, "ops": prefix, "step": s}
@@ -435,6 +555,9 @@ func sequence(n, kind, steps int) {
 				r.OracleFail(opName[o.kind]+"-page-attributes", input, "got "+pgdoc.Canon(got, false)+" before "+pgdoc.Canon(pages, false))
 			}
 		}
+		if s == steps {
+			boxesOracle(out, got, map[string]any{"tree": enc, "ops": prefix, "step": s, "op": "api.Boxes"})
+		}
 		os.Remove(cur)
 		cur, pages = out, got
 	}
@@ -455,6 +578,12 @@ func main() {
 	N := r.Pick(140, 900)
 	for i := 0; i < N; i++ {
 		n := 2 + r.Rand.Intn(r.Pick(11, 29))
-		sequence(n, i, 1+r.Rand.Intn(r.Pick(6, 8)))
+		sequence(n, i, 1+r.Rand.Intn(r.Pick(6, 8)), false)
+	}
+	// box sequences: crop -> rotate -> add trim -> add bleed/art -> remove boxes -> crop again ... on pages
+	// with own / inherited / absent MediaBox, CropBox, Rotate
+	for i := 0; i < r.Pick(120, 700); i++ {
+		n := 1 + r.Rand.Intn(r.Pick(6, 12))
+		sequence(n, i, 2+r.Rand.Intn(r.Pick(5, 7)), true)
 	}
 }
